@@ -4,6 +4,11 @@ META = {
                     "hands out a block owned by no file; device I/O always succeeds",
                     "fileio/inline: block size scaled to 4 / 32 bytes through an unphysical s_log_block_size "
                     "(the code under test only uses fs->blocksize and EXT2_BLOCK_SIZE_BITS)",
+                    "falloc_helper: the extent tree is a flat sorted list behind the extent API (all calls succeed); ext2fs_new_range "
+                    "behaves as alloc.c without callback over a cluster bitmap (run starts at goal or a cluster boundary, <= len, "
+                    "FIXED_GOAL / MIN_LENGTH honoured, only free clusters, may fail any time; the superblock's cluster is in use); "
+                    "ext2fs_map_cluster_block returns the block implied by any other mapped block of the logical cluster; the file "
+                    "before the call satisfies the extent / bigalloc cluster invariant",
                     "punch_ind: block numbers are fixed distinct tokens, presence of each slot symbolic; slots >= K "
                     "of every indirect block are zero"],
     "outside": ["histories are covered only through the inductive step on the handle invariant (fileio); of the mapping "
@@ -11,7 +16,14 @@ META = {
                 "implied_cluster_alloc over a table); BMAP_ALLOC through indirect blocks and extent.c "
                 "(ext2fs_extent_set_bmap, node split/merge, fix_parents) are not encoded",
                 "ext2fs_punch_extent's extent-tree editing (only its block-release helper punch_extent_blocks is decided)",
-                "allocator (alloc.c, alloc_stats.c bitmap/group accounting), fallocate.c, implied_cluster_alloc, mkjournal.c",
+                "allocator (alloc.c, alloc_stats.c bitmap/group accounting), mkjournal.c",
+                "fallocate.c: only ext_falloc_helper()+claim_range() are decided (falloc_helper), under the contract extent_fallocate() "
+                "establishes (left ends at range_start, right starts at range_end+1, the range is a hole) which is ASSUMED, not proved: "
+                "the extent walk extent_fallocate(), ext2fs_fallocate()'s argument checks and its block-mapped (bmap2 loop) branch are "
+                "not encoded; extents within reach of the on-disk length limit (max_init_len / max_uninit_len arithmetic), ranges "
+                "longer than 8 blocks, more than 2 general allocations per call, extent-API / zeroing / i_blocks failures, trees of "
+                "depth >= 1 (goto landing on the first extent of a later leaf), the EOF rule of EXT2_FALLOCATE_INIT_BEYOND_EOF "
+                "(i_size is symbolic, nothing is asserted about it)",
                 "inline_data.c itself (get/set/expand are stubs written from its code), xattr storage",
                 "EXT2_FLAG_SHARE_DUP dedup path of ext2fs_file_write, ino == 0 handles, I/O and allocation errors",
                 "several files interleaved on a real filesystem, nearly-full filesystems, i_blocks/bitmap agreement "
@@ -122,16 +134,13 @@ def falloc_helper_cfgs():
             d = dict(FALLOC_TINY, MODE=1, CRB=crb)
             if left: d["HAVE_LEFT"] = None
             if right: d["HAVE_RIGHT"] = None
-            if left and right:
-                d["_tier"] = "thorough"
+            if (left and right) or (right and not crb):
+                d["_tier"] = "thorough"       # left+right: 85..100 s each; ratio 1 right-only: 36..60 s (moved out of quick for the time budget)
             quick.append(d)
-            # with further-left / further-right extents (implied cluster allocation against a non-adjacent extent, insert positions)
-            thorough.append(dict(d, HAVE_FAR=None, _tier="thorough"))
-    # the default (larger) window, and extents within 2^LENBITS of the on-disk length limit
-    for crb in (2, 0):
-        thorough.append({"MODE": 1, "CRB": crb, "HAVE_LEFT": None, "HAVE_RIGHT": None, "_tier": "thorough"})
-        thorough.append(dict(FALLOC_TINY, MODE=1, CRB=crb, HAVE_LEFT=None, HAVE_RIGHT=None, WITH_BIG=None, PBITS=17, RLBITS=4,
-                             _tier="thorough"))
+            # with non-adjacent further-left / further-right extents (implied cluster allocation against an extent that is not
+            # passed, insert positions); measured 125..220 s each; only the bigalloc ones were run (ratio 1: not yet)
+            if crb and not (left and right):
+                thorough.append(dict(d, HAVE_FAR=None, _tier="thorough"))
     return quick + thorough
 
 HARNESSES += [
@@ -140,12 +149,12 @@ HARNESSES += [
          extra_src=["lib/ext2fs/i_block.c", "lib/ext2fs/blknum.c"],
          configs=falloc_helper_cfgs(), unwind=6,
          unwindset=FALLOC_UW + ["ext_falloc_helper.0:4"],
-         backends=["kissat"], witness_backends=["default"], cap_quick=200, cap_thorough=1200,
+         backends=["kissat"], witness_backends=["kissat"], cap_quick=200, cap_thorough=1200,
          bound="one call of ext_falloc_helper from every well-formed file state of left / right extent (each given or NULL; thorough: "
                "plus non-adjacent further-left / further-right extents), either state each, range of 1..8 blocks, all 12 flag "
-               "combinations, i_size anywhere, cluster ratio 4 and 1; quick: window start / gaps < 8, lengths 1..4, 128 physical "
-               "blocks; thorough: gaps < 64, lengths 1..16, 1024 blocks, and lengths within 4 of the on-disk limit; the allocator "
-               "answers symbolically (any free run / failure), at most 2 general allocations"),
+               "combinations, i_size anywhere, cluster ratio 4 and 1; window start / gaps < 8, lengths 1..4, 128 physical "
+               "blocks; the allocator answers symbolically (any free run / failure), at most 2 general allocations; quick: left-only, "
+               "right-only, neither; thorough: left+right, and (ratio 4) further extents"),
 ]
 MANIFEST = {
     "text": "Bounded-exhaustive kernels of the libext2fs file data path: (1) one real file-handle operation "
@@ -153,7 +162,11 @@ MANIFEST = {
             "coherence invariant returns/stores exactly the model's bytes and re-establishes the invariant, so "
             "histories of any length follow by induction within the window; (2) inline-data read/write lengths, "
             "copy bounds and store contents against a model store; (3) hole punching of block-mapped files against "
-            "the indirect-block format for every 64-bit start/end; (4) bigalloc cluster release arithmetic.",
+            "the indirect-block format for every 64-bit start/end; (4) bigalloc cluster release arithmetic; (5) one call of the "
+            "preallocation kernel ext_falloc_helper() from every small well-formed extent state: per logical / physical probe block, "
+            "old mappings and states preserved, the whole range mapped on success and nothing outside it, only newly mapped (or newly "
+            "claimed, unmapped) blocks zeroed and every newly visible initialised block zeroed, every new block claimed exactly once from "
+            "an allocator answer with i_blocks in step, written extents well formed (length limits, order, cluster invariant).",
     "note": "Trusted: CBMC's C semantics, the mapping/allocator/inline-store stubs, the harness reference models. "
             "The real mapping layer (bmap.c/extent.c), the allocator and whole-filesystem consistency are outside.",
 }
